@@ -6,6 +6,7 @@ I9  an accepted re-point to a shape-compatible definition keeps every connection
 from .. import common
 
 common.setup_env()
+import sys
 import spydrnet as sdn  # noqa: E402
 
 from .. import probes, wf, gen_ops  # noqa: E402
@@ -21,7 +22,8 @@ RULE = ("case = one random history of 60-200 calls, 'mirror' profile: few defini
 ASSUMPTIONS = ["pin-map order is not checked (statement: exactly one outer pin per inner pin)",
                "oracle uses only the public read API"]
 REQUIRED = {"invariant_evals": 1000, "edits_on_instanced": 200, "repoint_checked": 30, "dropped_pins_checked": 100}
-PROBES = {}
+BADPOS = "non-integer-position-fails-late"
+PROBES = {BADPOS: lambda: gen_ops.probe_bad_position("name")}
 
 
 def plan(tier):
@@ -100,7 +102,7 @@ def run_case(ctx, i, rng):
     policy = "EDIF" if i % 4 == 3 else "DEFAULT"
     sdn.namespace_manager.default = policy
     try:
-        eng = gen_ops.Engine(rng, "mirror", policy, fences=FENCES)
+        eng = gen_ops.Engine(rng, "mirror", policy, fences=tuple(FENCES) + (("bad_position",) if common.fenced(sys.modules[__name__], BADPOS) else ()))
         m = C02Monitor(ctx)
         gen_ops.run_history(eng, rng.randint(60, 200), [m])
         ctx.fingerprint([(e[1], e[3]) for e in eng.log], m.nontrivial_edits >= 10 and m.repoints >= 3)
